@@ -50,6 +50,36 @@ CLAIMS = {
         note="Trusted: struct/bit semantics as modelled; reference layout cfdp_common.header_spec(). ID values are validated by the "
              "byte-field classes (C20).",
         technique=TECH + "; finite case analysis over the width codes"),
+    "C04": dict(
+        text="Static analysis of the structure that makes CRC protection effective: in each of the ten encoders (all parameter "
+             "variants and configuration cases, and for PUS TC/TM also after setters with a cached CRC) the packed stream ends in "
+             "one CRC16 item whose coverage term is exactly all preceding items; the declared length field equals the packed length; "
+             "every decoder and wrapper (Service1Tm, Service17Tm, PduFactory.from_raw) establishes CRC16(data[0:N]) == 0 on every "
+             "path to a normal return and raises its checksum error otherwise; every CRC object is created as crc-ccitt-false. "
+             "It decides the coverage structure, not the burst-detection theorem of the polynomial.",
+        note="Trusted: CRC-16/CCITT-FALSE detects all bursts <= 16 bits; crcmod; the interpreter maps every crcmod object to one "
+             "abstract crc16 function, which the K-CONST obligations justify. Corruption is assumed outside the length-determining octets.",
+        technique="ast-based abstract interpretation (gated terms) + coverage comparison of the CRC term + must-pass (dominance) check of the verification + constant check of the algorithm name"),
+    "C06": dict(
+        text="Static analysis: each of the seven directive PDUs is constructed with symbolic parameters for every configuration case "
+             "(ID widths, CRC flag, large-file flag: values the code only compares, enumerated) and parameter variant (optional TLVs, "
+             "lists of 0 and 2 items); pack() is compared per bit with reference layouts from CCSDS 727.0-B-5 5.2 (field order, "
+             "big-endian FSS fields, TLV/LV items in list order, CRC iff flag, data-field length == layout length); decoders are "
+             "analysed per case with octets 0 and 3 concrete: fixed-offset parameters against the reference input bits, all reads "
+             "in bounds and inside the declared PDU, mandatory-parameter and short-buffer refusals, CRC verification, escape set. "
+             "Decoded TLV/segment lists come from summarised loops: their reads are proved where the guards suffice and otherwise "
+             "listed as undecided in the evidence; element-wise equality of decoded lists is not decided.",
+        note="Trusted: struct/bytearray/slice semantics as modelled; reference tables in spverif/pdus.py; str.encode/decode opaque and "
+             "length-correct. Quick tier: 6 configuration cases; thorough: all 64.",
+        technique=TECH + "; finite case analysis over configuration flags and widths"),
+    "C07": dict(
+        text="Static analysis: the File Data PDU is constructed for every configuration case and segment-metadata variant (absent, "
+             "present, present with zero octets); pack() is compared per bit with a reference layout from CCSDS 727.0-B-5 5.3, lengths "
+             "as linear forms, the 63-octet refusal by entailment, the max-segment helper against the layout, both setters by "
+             "re-packing; the decoder's offset/metadata/file-data extents are compared with the reference offsets up to the declared "
+             "end minus the CRC trailer ('not one octet more or fewer'), with bounds, refusals, CRC verification and reported length.",
+        note="Trusted: struct/bytearray/slice semantics as modelled; reference layout fd_spec() in spverif/props/c07.py.",
+        technique=TECH + "; finite case analysis over configuration flags and widths"),
 }
 
 NOT_CLAIMED = {}
